@@ -131,6 +131,10 @@ func toCRLF(d []byte) []byte { return bytes.ReplaceAll(d, []byte("\n"), []byte("
 
 func crossInputs(fmtName string, salt int64, nWell, nNoise int) []corpusInput {
 	ins := corpusFor(fmtName, salt, nWell, 6)
+	if nWell >= 4 { // two inputs larger than bufio's 4096-byte buffer (one several times larger)
+		ins[nWell-1] = corpusFor(fmtName, salt+1, 1, 120)[0]
+		ins[nWell-2] = corpusFor(fmtName, salt+2, 1, 900)[0]
+	}
 	if fmtName == "newick" { // line breaks inside quoted names are content, not terminators: keep them out of the CRLF comparison
 		for i := range ins {
 			ins[i].Data = bytes.Map(func(r rune) rune {
@@ -452,8 +456,9 @@ func stopDrive(args []string) error {
 	// trie.ForEach (unordered)
 	for i := 0; i < nIn*2; i++ {
 		t := trie.New()
-		for j := r.Intn(25); j > 0; j-- {
-			b := make([]byte, 1+r.Intn(4))
+		maxLen := 1 + r.Intn(4)
+		for j := r.Intn(1 + []int{3, 8, 25}[i%3]); j > 0; j-- {
+			b := make([]byte, 1+r.Intn(maxLen))
 			for k := range b {
 				b[k] = "ab\x00\xff"[r.Intn(4)]
 			}
